@@ -30,7 +30,7 @@ pub struct Case {
 }
 
 fn dens_kind() -> impl Strategy<Value = Kind> {
-    prop::sample::select(vec![Kind::OptF64, Kind::OptF32, Kind::RevF64, Kind::RevF32])
+    prop::sample::select(vec![Kind::OptF64, Kind::OptF32, Kind::RevF64, Kind::RevF32, Kind::OptF64NoHash, Kind::RevF64NoHash])
 }
 
 fn op_strategy(pool: usize) -> impl Strategy<Value = Op> {
@@ -65,6 +65,8 @@ fn other_alg(k: Kind) -> Kind {
         Kind::OptF64 => Kind::RevF64,
         Kind::OptF32 => Kind::RevF32,
         Kind::RevF64 => Kind::OptF64,
+        Kind::OptF64NoHash => Kind::RevF64NoHash,
+        Kind::RevF64NoHash => Kind::OptF64NoHash,
         _ => Kind::OptF32,
     }
 }
@@ -261,7 +263,22 @@ pub fn run(ctx: &Ctx) {
     super::run_fixed_tier(ctx, replay);
     let (cases, max_m) = ctx.tier.pick((60_000, 256), (1_500_000, 2048));
     ctx.drive("history", cases, 16, 2000, || strategy(max_m), eval);
+    // very large, almost empty sketches (every empty bin needs ~m/n probes): finishing must still fill every bin
+    let (cases, mmax) = ctx.tier.pick((6, 90_000usize), (48, 200_000usize));
+    ctx.drive("huge-sparse", cases, 6, 2, move || huge_strategy(mmax), eval);
 }
+
+fn huge_strategy(mmax: usize) -> impl Strategy<Value = Case> {
+    (dens_kind(), 66_000usize..mmax, 1usize..4, any::<u64>()).prop_map(|(kind, m, n, seed)| {
+        let pool: Vec<u64> = (0..n as u64).map(|i| splitmix64(seed.wrapping_add(i))).collect();
+        let mut ops: Vec<Op> = (0..n).map(|i| Op::Sketch(((i * 65536) / n) as u16)).collect();
+        ops.push(Op::End);
+        ops.push(Op::Views);
+        Case { kind, m, m2: 8, pool, ops, in_b: vec![true; n] }
+    })
+}
+
+
 
 pub fn replay(ctx: &Ctx, sub: &str, case: &Value) -> Result<(), String> {
     let c: Case = parse_case(case)?;
